@@ -88,6 +88,7 @@ pub mod formatter {
 use super::*;
 //@import trait_formatter
 //@import trait_block_formatter
+//@include format_exact_vocab.vs
 //@import format
 pub mod indent_remover {
 use super::*;
@@ -305,9 +306,23 @@ pub open spec fn clean_post(b: Seq<u8>, out: Seq<u8>) -> bool {
 /// The whole pipeline, pinned to the source and the configuration: the tokens are tokenize_spec's (C07/C08) and
 /// partition the source; the parse tree holds every token once, in order, paired by the stack rule (C10); the
 /// remover is the configured one (C03/C05/C06/C11); and the output is del(del(source, M), W) as in clean_witness.
+/// the whitespace pass is configured with the four seam formatters (in their order) and the block indent remover
+pub open spec fn configured_formatters(fs: Seq<Box<dyn Formatter>>, sfs: Seq<Box<dyn BlockFormatter>>) -> bool {
+    &&& fs.len() == 4
+    &&& forall|b: Seq<u8>, p: int| #![trigger fs[0].spec_format(b, p)] fs[0].spec_format(b, p) == indent_spec(b, p)
+    &&& forall|b: Seq<u8>, p: int| #![trigger fs[1].spec_format(b, p)] fs[1].spec_format(b, p) == empty_line_spec(b, p)
+    &&& forall|b: Seq<u8>, p: int| #![trigger fs[2].spec_format(b, p)] fs[2].spec_format(b, p) == prev_remover_spec(b, p)
+    &&& forall|b: Seq<u8>, p: int| #![trigger fs[3].spec_format(b, p)] fs[3].spec_format(b, p) == next_remover_spec(b, p)
+    &&& sfs.len() == 1
+    &&& forall|b: Seq<u8>, s: int, e: int| #![trigger sfs[0].spec_format(b, s, e)] sfs[0].spec_format(b, s, e) == block_spec(b, s, e)
+}
 pub open spec fn clean_pipeline(cs: Seq<char>, ds: Seq<char>, de: Seq<char>, config: ChiritoriConfiguration, out: Seq<u8>,
-        ts: Seq<crate::tokenizer::Token>, r: Remover, parts: Seq<crate::parser::ContentPart>, w: Seq<Range<usize>>) -> bool {
+        ts: Seq<crate::tokenizer::Token>, r: Remover, parts: Seq<crate::parser::ContentPart>, w: Seq<Range<usize>>,
+        fs: Seq<Box<dyn Formatter>>, sfs: Seq<Box<dyn BlockFormatter>>) -> bool {
     let b = encode_utf8(cs);
+    let mk = mm_spec(collect_spec(r, parts, false).0);
+    &&& configured_formatters(fs, sfs)
+    &&& crate::formatter::format_exact(fs, sfs, del_from(b, marker_ranges(mk), 0), removed_pos_of(mk), w)
     &&& crate::tokenizer_fns::tvs(ts) == crate::tokenizer_fns::tokenize_spec(cs, ds, de)
     &&& crate::tokenizer_fns::tok_chain(ts, cs, cs.len() as int)
     &&& crate::flatten(parts) == ts
@@ -316,8 +331,9 @@ pub open spec fn clean_pipeline(cs: Seq<char>, ds: Seq<char>, de: Seq<char>, con
     &&& clean_witness(b, out, r, parts, w)
 }
 pub open spec fn clean_post_full(cs: Seq<char>, ds: Seq<char>, de: Seq<char>, config: ChiritoriConfiguration, out: Seq<u8>) -> bool {
-    exists|ts: Seq<crate::tokenizer::Token>, r: Remover, parts: Seq<crate::parser::ContentPart>, w: Seq<Range<usize>>|
-        #[trigger] clean_pipeline(cs, ds, de, config, out, ts, r, parts, w)
+    exists|ts: Seq<crate::tokenizer::Token>, r: Remover, parts: Seq<crate::parser::ContentPart>, w: Seq<Range<usize>>,
+            fs: Seq<Box<dyn Formatter>>, sfs: Seq<Box<dyn BlockFormatter>>|
+        #[trigger] clean_pipeline(cs, ds, de, config, out, ts, r, parts, w, fs, sfs)
 }
 
 pub proof fn lemma_mm_post_parts(f: Seq<GTree>, mk: Seq<RemoveMarker>)
@@ -417,8 +433,10 @@ pub proof fn lemma_removed_pos_eq(mk: Seq<RemoveMarker>, rp: Seq<crate::RemovedM
         assert(crate::flatten(parts) == tokens@);
         assert(crate::gp(parts) == crate::stack_parse(tokens@, crate::tok_nm()));
         assert(configured(remover, __cfg, b));
+        assert(configured_formatters(formatter@, structure_formatters@));
         assert forall|w: Seq<Range<usize>>, o: Seq<u8>| #[trigger] format_post(mid, __rp, w, o) && (__rp.len() == 0 ==> o == mid)
-            implies clean_pipeline(content@, __ds, __de, __cfg, o, tokens@, remover, parts, w) by {
+                && crate::formatter::format_exact(formatter@, structure_formatters@, mid, __rp, w)
+            implies clean_pipeline(content@, __ds, __de, __cfg, o, tokens@, remover, parts, w, formatter@, structure_formatters@) by {
             assert(clean_witness(b, o, remover, parts, w));
         }
     }
